@@ -10,6 +10,8 @@ import (
 	"os"
 	"runtime/debug"
 	"strings"
+	"sync"
+	"sync/atomic"
 	"time"
 
 	"golang.org/x/tools/go/packages"
@@ -25,6 +27,7 @@ type Engine struct {
 	Sizes     types.Sizes
 	KnownOpen map[string]bool
 	Stats     *smt.Stats
+	Tokens    chan struct{} // worker slots shared by all harness instances
 }
 
 // Load type-checks the listed packages of the repository together with the
@@ -51,12 +54,18 @@ func Load(repo string, patterns []string, overlay map[string][]byte) (*Engine, e
 	}
 	prog, spkgs := ssautil.AllPackages(pkgs, ssa.InstantiateGenerics|ssa.SanityCheckFunctions*0)
 	e := &Engine{Prog: prog, Pkgs: pkgs, SSAPkgs: map[string]*ssa.Package{}, Sizes: &types.StdSizes{WordSize: 8, MaxAlign: 8},
-		KnownOpen: map[string]bool{}, Stats: smt.NewStats()}
+		KnownOpen: map[string]bool{}, Stats: smt.NewStats(), Tokens: make(chan struct{}, 14)}
 	for k, p := range spkgs {
 		if p != nil {
 			e.SSAPkgs[pkgs[k].PkgPath] = p
-			p.Build()
 		}
+	}
+	// Build every package up front (in parallel): harness instances run
+	// concurrently and must never observe a half-built function body.
+	tb := time.Now()
+	prog.Build()
+	if os.Getenv("VERIF_PROGRESS") != "" {
+		fmt.Fprintf(os.Stderr, "ssa build of %d packages: %.1fs\n", len(prog.AllPackages()), time.Since(tb).Seconds())
 	}
 	return e, nil
 }
@@ -73,6 +82,7 @@ type HarnessCfg struct {
 	MaxPaths  int
 	Deadline  time.Duration
 	Label     string
+	Split     int // decisions near the root whose alternatives are explored by separate workers (-1: none)
 }
 
 func (eng *Engine) newInterp(ex *Explorer, pkg *ssa.Package) *interpreter {
@@ -103,7 +113,9 @@ func (i *interpreter) global(g *ssa.Global) *value {
 	return &cell
 }
 
-// Run explores all paths of one harness function.
+// Run explores all paths of one harness function. Sub-trees rooted at the
+// first SplitDepth decisions are explored by separate workers (each with its
+// own solver process); the returned Explorer carries the merged results.
 func (eng *Engine) Run(cfg HarnessCfg) (*Explorer, error) {
 	pkg := eng.SSAPkgs[cfg.Pkg]
 	if pkg == nil {
@@ -119,28 +131,112 @@ func (eng *Engine) Run(cfg HarnessCfg) (*Explorer, error) {
 	if cfg.TimeoutMs == 0 {
 		cfg.TimeoutMs = 10000
 	}
-	ex, err := NewExplorer(cfg.Solver, cfg.IntMode, eng.Stats, cfg.TimeoutMs)
-	if err != nil {
-		return nil, err
-	}
-	defer ex.Close()
-	ex.Harness = cfg.Label
-	if ex.Harness == "" {
-		ex.Harness = cfg.Func
-	}
-	ex.Params = cfg.Params
-	ex.Tier = cfg.Tier
-	ex.CrossCheck = cfg.Tier == "thorough"
-	if cfg.Unwind > 0 {
-		ex.Unwind = cfg.Unwind
-	}
 	if cfg.MaxPaths == 0 {
-		cfg.MaxPaths = 200000
+		cfg.MaxPaths = 400000
 	}
 	if cfg.Deadline == 0 {
 		cfg.Deadline = 20 * time.Minute
 	}
+	if cfg.Split == 0 {
+		cfg.Split = 6
+	}
+	if cfg.Label == "" {
+		cfg.Label = cfg.Func
+	}
 	t0 := time.Now()
+	var (
+		mu       sync.Mutex
+		wg       sync.WaitGroup
+		all      []*Explorer
+		firstErr error
+		paths    int64
+	)
+	var start func(prefix []dec)
+	start = func(prefix []dec) {
+		wg.Add(1)
+		go func() {
+			defer wg.Done()
+			eng.Tokens <- struct{}{}
+			defer func() { <-eng.Tokens }()
+			ex, err := NewExplorer(cfg.Solver, cfg.IntMode, eng.Stats, cfg.TimeoutMs)
+			if err != nil {
+				mu.Lock()
+				firstErr = err
+				mu.Unlock()
+				return
+			}
+			defer ex.Close()
+			ex.Harness, ex.Params, ex.Tier = cfg.Label, cfg.Params, cfg.Tier
+			ex.CrossCheck = cfg.Tier == "thorough"
+			if cfg.Unwind > 0 {
+				ex.Unwind = cfg.Unwind
+			}
+			ex.prefix, ex.baseLen = prefix, len(prefix)
+			ex.SplitDepth = cfg.Split
+			if cfg.Split > 0 {
+				ex.spawn = start
+			}
+			eng.explore(ex, pkg, fn, cfg, t0, &paths)
+			mu.Lock()
+			all = append(all, ex)
+			mu.Unlock()
+		}()
+	}
+	start(nil)
+	wg.Wait()
+	if firstErr != nil {
+		return nil, firstErr
+	}
+	return mergeExplorers(all, cfg), nil
+}
+
+func mergeExplorers(all []*Explorer, cfg HarnessCfg) *Explorer {
+	m := &Explorer{Harness: cfg.Label, Params: cfg.Params, Tier: cfg.Tier, Reached: map[string]int{}, Covered: map[string]bool{}, Stubbed: map[string]bool{}}
+	for _, e := range all {
+		m.Paths += e.Paths
+		m.PathsInfeas += e.PathsInfeas
+		m.Obligations += e.Obligations
+		m.Discharged += e.Discharged
+		m.Trivial += e.Trivial
+		m.Decisions += e.Decisions
+		m.UnknownBranch += e.UnknownBranch
+		m.CrossDisagree += e.CrossDisagree
+		m.Merges += e.Merges
+		for k, v := range e.Reached {
+			m.Reached[k] += v
+		}
+		for k := range e.Covered {
+			m.Covered[k] = true
+		}
+		for k := range e.Stubbed {
+			m.Stubbed[k] = true
+		}
+		for _, s := range e.Samples {
+			if len(m.Samples) < 6 {
+				m.Samples = append(m.Samples, s)
+			}
+		}
+		for _, ic := range e.Inconcl {
+			m.inconclusive(ic.Kind, ic.Msg)
+		}
+		for _, f := range e.Findings {
+			dup := false
+			for _, g := range m.Findings {
+				if g.Kind == f.Kind && g.Msg == f.Msg && g.Pos == f.Pos {
+					dup = true
+				}
+			}
+			if !dup {
+				m.Findings = append(m.Findings, f)
+			}
+		}
+	}
+	m.Workers = len(all)
+	return m
+}
+
+func (eng *Engine) explore(ex *Explorer, pkg *ssa.Package, fn *ssa.Function, cfg HarnessCfg, t0 time.Time, paths *int64) {
+	tLast := time.Now()
 	for {
 		ex.beginRun()
 		i := eng.newInterp(ex, pkg)
@@ -153,6 +249,12 @@ func (eng *Engine) Run(cfg HarnessCfg) (*Explorer, error) {
 		eng.runOnce(i, fn)
 		ex.endRun()
 		ex.Paths++
+		total := atomic.AddInt64(paths, 1)
+		if os.Getenv("VERIF_PROGRESS") != "" && time.Since(tLast) > 5*time.Second {
+			tLast = time.Now()
+			fmt.Fprintf(os.Stderr, "[%s] worker paths=%d (all workers %d) decisions=%d obligations=%d findings=%d inconcl=%d t=%.0fs\n",
+				ex.Harness, ex.Paths, total, ex.Decisions, ex.Obligations, len(ex.Findings), len(ex.Inconcl), time.Since(t0).Seconds())
+		}
 		if len(ex.Findings) >= ex.MaxFindings {
 			ex.inconclusive("search-cut", "stopped after reaching the finding limit")
 			break
@@ -160,7 +262,7 @@ func (eng *Engine) Run(cfg HarnessCfg) (*Explorer, error) {
 		if !ex.next() {
 			break
 		}
-		if ex.Paths >= cfg.MaxPaths {
+		if total >= int64(cfg.MaxPaths) {
 			ex.inconclusive("path-limit", fmt.Sprintf("more than %d paths", cfg.MaxPaths))
 			break
 		}
@@ -169,7 +271,6 @@ func (eng *Engine) Run(cfg HarnessCfg) (*Explorer, error) {
 			break
 		}
 	}
-	return ex, nil
 }
 
 func (eng *Engine) runOnce(i *interpreter, fn *ssa.Function) {
